@@ -1,7 +1,7 @@
 """C13 - well-formed requests never hit the server's internal-error path."""
 import ast
 
-from ..astutil import U, dotted, walk_local, is_self_attr, call_name, short, enum_member, get_class, methods, classes, params, bind_args
+from ..astutil import U, dotted, walk_local, is_self_attr, call_name, short, enum_member, get_class, get_method, methods, classes, params, bind_args
 from ..cfg import CFG, calls_at
 from ..dataflow import ReachingDefs, node_of_expr
 from ..guards import handler_catches
@@ -168,19 +168,16 @@ def check_identifier_strings(ctx, m):
         raise AnalysisError('C13.R5 cannot classify identifier values: %s' % unknown[:3])
 
 
-def check_optional_deref(ctx, m):
-    """C13.R3: a structure field that its decoder treats as optional (or version-conditional) may be None; dereferencing it in a handler needs a guard."""
-    from ..ttlv import Schema, VERSIONS
-    from ..index import Index
-    from ..cfg import CFG
-    from ..dataflow import ReachingDefs, node_of_expr
-    from ..guards import dominating_edges, is_none_test
-    src = ctx.src
-    sch = Schema(src)
-    ctx.rule('C13.R3', 'in engine handlers, an attribute access on a payload/structure field that the decoder treats as optional is dominated by a None/truthiness test of that field')
-    schemas = {}
 
-    def schema_of(ref):
+class OptSchemas:
+    """per codec class: field -> {'kinds': {version: 'req'|'opt'|'rep'}, 'cls': class of the field, 'rep': bool, 'raw': getter returns .value}"""
+    def __init__(self, sch):
+        self.sch = sch
+        self.schemas = {}
+
+    def schema_of(self, ref):
+        from ..ttlv import VERSIONS, eval_guard
+        sch, schemas = self.sch, self.schemas
         if ref in schemas:
             return schemas[ref]
         schemas[ref] = {}
@@ -188,12 +185,11 @@ def check_optional_deref(ctx, m):
         own = {n.name: n for n in cn.body if isinstance(n, ast.FunctionDef)}
         if 'read' not in own:
             for b in sch.ix.bases(ref):
-                schemas[ref] = schema_of(b)
+                schemas[ref] = self.schema_of(b)
                 return schemas[ref]
             return {}
         R = sch.extract(ref, own['read'], 'read')
         out = {}
-        from ..ttlv import eval_guard
         for e in R.events:
             d = out.setdefault(e['ident'], {'kinds': {}, 'cls': e['cls'], 'rep': False})
             for v in VERSIONS:
@@ -218,6 +214,18 @@ def check_optional_deref(ctx, m):
                     d['raw'] = True
         schemas[ref] = out
         return out
+
+def check_optional_deref(ctx, m):
+    """C13.R3: a structure field that its decoder treats as optional (or version-conditional) may be None; dereferencing it in a handler needs a guard."""
+    from ..ttlv import Schema, VERSIONS
+    from ..index import Index
+    from ..cfg import CFG
+    from ..dataflow import ReachingDefs, node_of_expr
+    from ..guards import dominating_edges, is_none_test
+    src = ctx.src
+    sch = Schema(src)
+    ctx.rule('C13.R3', 'in engine handlers, an attribute access on a payload/structure field that the decoder treats as optional is dominated by a None/truthiness test of that field')
+    schema_of = OptSchemas(sch).schema_of
     # operation -> request payload class
     reqf = src.tree('kmip/core/factories/payloads/request.py')
     fac = [x for x in reqf.body if isinstance(x, ast.ClassDef)][0]
@@ -403,6 +411,99 @@ def check_partial_helpers(ctx, m):
                           '%s raises on an empty collection (%s) and is called with %s, which can be empty (e.g. an object stored without that attribute): the exception is answered with General Failure' % (call_name(c), how, at))
     ctx.analysed['calls_of_partial_helpers_from_engine'] = n_calls
 
+
+
+def check_factory_optional_deref(ctx):
+    """C13.R11: the converters from decoded wire structures to stored objects tolerate every optional field being absent."""
+    from ..ttlv import Schema
+    from ..cfg import CFG
+    from ..dataflow import ReachingDefs
+    from ..guards import dominating_edges, is_none_test
+    FACTORY = 'kmip/pie/factory.py'
+    ctx.rule('C13.R11', 'in ObjectFactory (wire structure -> stored object, run by Register) a structure that its decoder treats as optional is never dereferenced without a None / truthiness test: neither directly nor by handing it to a converter helper that reads its fields unconditionally - an absent optional sub-structure (e.g. the Cryptographic Parameters inside Encryption Key Information) would raise AttributeError, answered with General Failure')
+    src = ctx.src
+    sch = Schema(src)
+    osch = OptSchemas(sch)
+    # field name -> [(holder class, descriptor)] over every codec class
+    by_field = {}
+    for ref, rfn, wfn in sch.codec_classes():
+        for ident, d in osch.schema_of(ref).items():
+            by_field.setdefault(ident, []).append((ref, d))
+    t = src.tree(FACTORY)
+    fac = get_class(t, 'ObjectFactory')
+    ms = {name: get_method(fac, name) for name in methods(fac)}
+
+    def field_info(e, holders=None):
+        """(possible classes of e, nullable) for an attribute read of a codec field, by field name (filtered by the holder classes when known)"""
+        if not isinstance(e, ast.Attribute):
+            return None
+        cands = by_field.get(e.attr, [])
+        base = field_info(e.value)
+        if base and base[0]:
+            f = [(r, d) for r, d in cands if r in base[0]]
+            cands = f or cands
+        if not cands:
+            return None
+        classes = {d['cls'] for r, d in cands if d['cls'] is not None and not d['raw'] and not d['rep']}
+        nullable = any(k in (None, 'opt') for r, d in cands for k in (list(d['kinds'].values()) or [None]))
+        return classes, nullable
+
+    def unguarded_param_derefs(fn, p):
+        g = CFG(fn)
+        out = []
+        for n in g.nodes:
+            from ..cfg import expr_nodes
+            for ex in expr_nodes(n):
+                for x in ast.walk(ex):
+                    if isinstance(x, ast.Attribute) and isinstance(x.ctx, ast.Load) and isinstance(x.value, ast.Name) and x.value.id == p:
+                        guarded = False
+                        for tt, lab in dominating_edges(g, n):
+                            nt = is_none_test(tt.stmt)
+                            if nt and U(nt[1]) == p and ((nt[0] == 'isnot') == (lab == 'T')):
+                                guarded = True
+                            if U(tt.stmt) == p and lab == 'T':
+                                guarded = True
+                        if not guarded:
+                            out.append(x)
+        return out
+    n_sites = 0
+    for name, fn in sorted(ms.items()):
+        g = CFG(fn)
+        rd = ReachingDefs(g)
+        for n in g.nodes:
+            for c in calls_at(n):
+                if not (is_self_attr(c.func) and c.func.attr in ms):
+                    continue
+                callee = ms[c.func.attr]
+                cps = params(callee)
+                for i_, a in enumerate(c.args):
+                    if i_ >= len(cps):
+                        break
+                    ae = a
+                    texts = {U(a)}
+                    if isinstance(a, ast.Name):
+                        vals = [v for v in rd.values(n, a.id) if isinstance(v, ast.AST)]
+                        if len(vals) != 1:
+                            continue
+                        ae = vals[0]
+                        texts.add(U(ae))
+                    info = field_info(ae)
+                    if not info or not info[1] or not info[0]:
+                        continue
+                    n_sites += 1
+                    guarded = False
+                    for tt, lab in dominating_edges(g, n):
+                        nt = is_none_test(tt.stmt)
+                        if nt and U(nt[1]) in texts and ((nt[0] == 'isnot') == (lab == 'T')):
+                            guarded = True
+                        if U(tt.stmt) in texts and lab == 'T':
+                            guarded = True
+                    bad = [] if guarded else unguarded_param_derefs(callee, cps[i_])
+                    ctx.check(not bad, 'C13.R11', 'ObjectFactory.%s|%s -> %s(%s)' % (name, U(ae), c.func.attr, cps[i_]), '%s:%s ObjectFactory.%s' % (FACTORY, c.lineno, name),
+                              'the optional structure %s is tested before its fields are read' % U(ae),
+                              '%s is optional in its decoder and is handed to %s, which reads %s without testing %s for None: AttributeError -> General Failure for a well-formed Register'
+                              % (U(ae), c.func.attr, sorted(set(U(x) for x in bad))[:3], cps[i_]))
+    ctx.count('optional_structures_handed_to_converters', n_sites, 2)
 
 def run(ctx):
     src = ctx.src
@@ -635,6 +736,9 @@ def run(ctx):
     if not any(f.rule == 'C13.R8' for f in ctx.findings):
         ctx.ok('C13.R8', 'kmip/pie/objects.py, kmip/pie/sqltypes.py', 'no uniqueness / check constraints besides the primary keys')
     check_partial_helpers(ctx, m)
+    from .c15 import check_index_bounds
+    check_index_bounds(ctx, m, 'C13.R10', ' (shared with C15.R9)')
+    check_factory_optional_deref(ctx)
     ctx.not_decided += ['implicit exceptions of third-party code for particular values (cryptography rejecting a nonce length, unpadding failure with a wrong key)']
     ctx.assumptions += ['requests reach the engine only through the decoders (wire-decoded provenance): field types are those the decoders construct',
                         'TypeError raises in pie validate() are infeasible for decoder-typed values; ValueError raises depend on values and are feasible']
